@@ -1,6 +1,7 @@
 package rules
 
 import (
+	"go/types"
 	"fmt"
 	"strings"
 
@@ -167,9 +168,48 @@ func runC04(c *Ctx) {
 	}
 	for _, fn := range fins {
 		var dcalls []ssa.CallInstruction
+		resIdx := map[ssa.CallInstruction][2]int{} // call → (retry result index, error result index)
+		// the dispatch may live in a same-package helper that forwards the task's (retry, err)
+		scope := []*ssa.Function{fn}
+		for _, ci := range AllCalls(fn) {
+			h := ci.Common().StaticCallee()
+			if h == nil || h.Pkg != fn.Pkg || h.Blocks == nil {
+				continue
+			}
+			isDispatch := false
+			for _, d := range dispatch {
+				if len(CallsIn(h, d.callee)) > 0 {
+					isDispatch = true
+				}
+			}
+			if !isDispatch {
+				continue
+			}
+			if r, e, ok := forwardsTaskResult(h, func(x ssa.CallInstruction) bool {
+				for _, d := range dispatch {
+					if NameMatch(CalleeName(x.Common()), d.callee) {
+						return true
+					}
+				}
+				return false
+			}); ok {
+				scope = append(scope, h)
+				dcalls = append(dcalls, ci)
+				resIdx[ci] = [2]int{r, e}
+			} else {
+				c.Ob("R4.3a", FuncName(fn)+"#dispatch-helper("+h.Name()+")", ci.Pos(), false, "a helper that runs the cleanup tasks hands their (retry, err) back unchanged", "undecided: "+h.Name()+" contains cleanup calls but does not forward their results on every path")
+			}
+		}
 		for _, d := range dispatch {
-			for _, call := range CallsIn(fn, d.callee) {
-				dcalls = append(dcalls, call)
+			var calls []ssa.CallInstruction
+			for _, f := range scope {
+				calls = append(calls, CallsIn(f, d.callee)...)
+			}
+			for _, call := range calls {
+				if call.Parent() == fn {
+					dcalls = append(dcalls, call)
+					resIdx[call] = [2]int{0, 1}
+				}
 				facts := FactsAtInstr(call)
 				ok := HasFact(facts, FCmp("==", MField("FinalisingStep"), MConst(val[d.task])))
 				c.Ob("R4.2", FuncName(fn)+"#dispatch("+d.callee+")", call.Pos(), ok, d.callee+" must run in the case of "+d.task,
@@ -181,7 +221,7 @@ func runC04(c *Ctx) {
 			facts := FactsAtInstr(st)
 			vt := TermOf(st.Val)
 			switch {
-			case HasFact(facts, FCmp("==", MLen(MField("FinalisingStep")), MConst("0"))):
+			case HasFact(facts, FOr(FCmp("==", MLen(MField("FinalisingStep")), MConst("0")), FCmp("==", MField("FinalisingStep"), MConst("")))):
 				c.Ob("R4.3a", FuncName(fn)+"#store(FinalisingStep)[initial]", st.Pos(), true, "cursor initialised while empty", "")
 			case vt.Any(func(t *Term) bool {
 				return t.Op == "call" && t.Fn != nil && lookupFns[t.Fn] && len(t.Args) == 2 && t.Args[1].Op == "const" && t.Args[1].Name == ""
@@ -197,7 +237,7 @@ func runC04(c *Ctx) {
 					}
 					n++
 					ok, by := OnlyVia(PointAfter(d.(ssa.Instruction)), func(in ssa.Instruction) bool { return in == ssa.Instruction(st) },
-						FNil(MResultOf(d, 1)), FFalse(MResultOf(d, 0)))
+						FNil(MResultOf(d, resIdx[d][1])), FFalse(MResultOf(d, resIdx[d][0])))
 					det := ""
 					if !ok {
 						det = "cursor store reachable from the call without passing " + pick(by, "err == nil", "retry == false")
@@ -211,7 +251,7 @@ func runC04(c *Ctx) {
 		}
 		// return true only under END or nil status
 		for _, ret := range returnsOf(fn) {
-			for _, lf := range Leaves(ret.Results[0], ret.Block()) {
+			for _, lf := range BoolLeaves(ret.Results[0], ret.Block()) {
 				t := TermOf(lf.V)
 				if t.Op == "const" && t.Name == "true" {
 					ok := HasFact(lf.Facts, FCmp("==", MField("FinalisingStep"), MConst(val[tEnd]))) ||
@@ -251,7 +291,7 @@ func runC04(c *Ctx) {
 					shortCallee(cur)+" runs only after "+shortCallee(calls[i-1])+" succeeded", ifs(!ok, "bypasses "+pick(by, "err == nil", "retry == false")))
 			}
 			for _, ret := range returnsOf(fn) {
-				for _, lf := range Leaves(ret.Results[0], ret.Block()) {
+				for _, lf := range BoolLeaves(ret.Results[0], ret.Block()) {
 					t := TermOf(lf.V)
 					if t.Op == "const" && t.Name == "true" {
 						last := calls[len(calls)-1]
@@ -375,7 +415,7 @@ func checkLookup(c *Ctx, fn *ssa.Function, endVal string) {
 			case t.Op == "const" && t.Name == endVal:
 				c.Ob("R4.1b", FuncName(fn)+"#return(END)", ret.Pos(), true, "END when the current task is the last one or unknown", "")
 			case t.Op == "index" && t.Args[1].Op == "const" && t.Args[1].Name == "0":
-				ok := HasFact(lf.Facts, FCmp("==", MLen(isCur), MConst("0")))
+				ok := HasFact(lf.Facts, FOr(FCmp("==", MLen(isCur), MConst("0")), FCmp("==", isCur, MConst(""))))
 				c.Ob("R4.1b", FuncName(fn)+"#return(seq[0])", ret.Pos(), ok, "first task only when no task ran yet", ifs(!ok, "seq[0] returned without len(currentTask) == 0")).WithFacts(lf.Facts)
 			case t.Op == "index" && t.Args[1].Op == "binop" && t.Args[1].Name == "+" && t.Args[1].Args[1].Op == "const" && t.Args[1].Args[1].Name == "1":
 				i := t.Args[1].Args[0]
@@ -466,7 +506,7 @@ func checkResetChain(c *Ctx, rule string, val map[string]string) {
 			}
 			// done results
 			for _, ret := range returnsOf(fn) {
-				for _, lf := range Leaves(ret.Results[0], ret.Block()) {
+				for _, lf := range BoolLeaves(ret.Results[0], ret.Block()) {
 					t := TermOf(lf.V)
 					if t.Op != "const" {
 						c.Ob(rule, "doProgressingReset#return(non-constant)", ret.Pos(), false, "done result is not a constant", "undecided: "+t.String())
@@ -553,4 +593,68 @@ func constText(k *ssa.Const) string {
 		return "nil"
 	}
 	return k.Value.String()
+}
+
+// forwardsTaskResult: h has a bool result r and an error result e such that on every return
+// reachable after one of its task calls, results r and e are that call's (retry, err) themselves.
+func forwardsTaskResult(h *ssa.Function, isTask func(ssa.CallInstruction) bool) (int, int, bool) {
+	res := h.Signature.Results()
+	errIdx := -1
+	for i := 0; i < res.Len(); i++ {
+		if res.At(i).Type().String() == "error" {
+			errIdx = i
+		}
+	}
+	if errIdx < 0 {
+		return 0, 0, false
+	}
+	var tasks []ssa.CallInstruction
+	for _, ci := range AllCalls(h) {
+		if isTask(ci) {
+			tasks = append(tasks, ci)
+		}
+	}
+	if len(tasks) == 0 {
+		return 0, 0, false
+	}
+	fromTask := func(v ssa.Value, idx int, at *ssa.BasicBlock) bool {
+		// every non-constant definition reaching v is result #idx of a task call
+		any := false
+		for _, lf := range Leaves(Forwarded(v), at) {
+			x := Forwarded(lf.V)
+			if _, isC := x.(*ssa.Const); isC {
+				continue
+			}
+			ex, ok := x.(*ssa.Extract)
+			if !ok || ex.Index != idx {
+				return false
+			}
+			call, ok := ex.Tuple.(*ssa.Call)
+			if !ok || !isTask(call) {
+				return false
+			}
+			any = true
+		}
+		return any
+	}
+	for r := 0; r < res.Len(); r++ {
+		b, ok := res.At(r).Type().Underlying().(*types.Basic)
+		if !ok || b.Kind() != types.Bool {
+			continue
+		}
+		good, seen := true, false
+		for _, t := range tasks {
+			for _, rr := range WalkCP(PointAfter(t.(ssa.Instruction)), nil, IsReturn, ReachOpts{}) {
+				ret := rr.Instr.(*ssa.Return)
+				seen = true
+				if !fromTask(ret.Results[r], 0, ret.Block()) || !fromTask(ret.Results[errIdx], 1, ret.Block()) {
+					good = false
+				}
+			}
+		}
+		if good && seen {
+			return r, errIdx, true
+		}
+	}
+	return 0, 0, false
 }
